@@ -112,6 +112,9 @@ theorem apply_classify {s s' : St} {o : Op} {id : Nat} {r r' : Rollapp} (h : Rol
       right; right; left
       exact ⟨h1, Or.inr ⟨au, vs, rfl⟩⟩
   | punish au a' rw => exact contra ((punish_frame h.core.uniq (punishProposal_ok e).2).psame id)
+  | transferOwner sg ra' no =>
+    obtain ⟨r1, hg1, _, _, _, rfl⟩ := transferOwner_ok e
+    exact contra (psame_setRa (r0 := r1) hg1 (by rfl) (by rfl) id)
   | begin_ dt => simp only [apply] at e; injection e with e; subst e; exact contra (beginBlock_psame s dt id)
   | end_ f => simp only [apply] at e; injection e with e; subst e; exact contra ((endBlock_frame h.core.uniq).psame id)
 
